@@ -1056,13 +1056,16 @@ struct MonC15 : Monitor {
         if (!timed || maybe_not) for (int x : table(s, e)) r.insert(x);
         return r;
     }
+    uint64_t entry_s = 0; // the clock second at which the operation entered the core (the call itself may take time)
+    void pre_api(World &w, int, const Op &) override { entry_s = w.now / 1000; }
     void on_api(World &w, int, const Op &op, const glue_view &b, const glue_view &a, int64_t) override {
-        if (op.kind == OP_A_SETSESS) last_input_s[0] = w.now / 1000 - (uint64_t)op.a[1];
-        if (op.kind == OP_A_REINIT) { last_input_s[0] = w.now / 1000; if (a.session_state != 1) w.violate("C15", "initial-state", fmt("a new session automaton starts in state %d, not Nascent", a.session_state)); return; }
+        if (op.kind == OP_A_ADV || op.kind == OP_A_TICK || op.kind == OP_A_REINIT) entry_s = w.now / 1000; // these do not pass through pre_api
+        if (op.kind == OP_A_SETSESS) last_input_s[0] = entry_s - (uint64_t)op.a[1];
+        if (op.kind == OP_A_REINIT) { last_input_s[0] = entry_s; if (a.session_state != 1) w.violate("C15", "initial-state", fmt("a new session automaton starts in state %d, not Nascent", a.session_state)); return; }
         if (op.kind != OP_A_SESS) return;
         int e = (int)op.a[0];
-        uint64_t el = w.now / 1000 - last_input_s[0];
-        last_input_s[0] = w.now / 1000;
+        uint64_t el = entry_s - last_input_s[0];
+        last_input_s[0] = entry_s;
         if (e < 0 || e > 7 || b.session_state < 0 || b.session_state > 3) return;
         int to = b.session_timeout[b.session_state];
         int ec = el == 0 ? 0 : (el + 1 == (uint64_t)to) ? 1 : (el == (uint64_t)to) ? 2 : (el == (uint64_t)to + 1) ? 3 : 4;
